@@ -103,7 +103,7 @@ def check_arith(case):
     metas.append(("fn", "sort[]"))
     exprs.append(f"std.minArray({arr_src}, onEmpty=0) + std.maxArray({arr_src}, onEmpty=0)")
     metas.append(("fn", "min+max"))
-    cap = lambda x: x if abs(x) <= 1e5 else math.copysign(1e5, x)
+    cap = lambda x: x if abs(x) <= 2e4 else math.copysign(2e4, x)  # allocation-sizing arguments: memory and time are not the property
     for k in case["funcs"]:
         name, arity = fl[k % len(fl)]
         if name in SKIP_FUNCS:
